@@ -2,11 +2,12 @@
 """Print the prompt given to a fresh mutation sub-agent for property <id> (only the property text + its scratch worktree)."""
 import json, sys
 pid = sys.argv[1]
+tag = sys.argv[2] if len(sys.argv) > 2 else pid   # directory tag (second rounds: C07r2 ...)
 props = {json.loads(l)["id"]: json.loads(l) for l in open("/verif/properties.jsonl")}
 p = props[pid]
 print(f"""You are helping to evaluate a verification tool by writing a *seeded defect* for an open-source Python library.
 
-The library is groupby-lib (a pandas groupby accelerator: numba-JIT group reductions, factorization, rolling/cumulative windows, EMAs, crosstabs over numpy/pandas/polars/arrow inputs). You have your own scratch git worktree of it at /tmp/wt_{pid} (detached HEAD). Work ONLY inside /tmp/wt_{pid} and /tmp/seed_out/{pid}/ (create the latter). Never read or modify /repo or /verif (the installed package is an editable install of /repo, so ALWAYS run python with `PYTHONPATH=/tmp/wt_{pid}` and `NUMBA_CACHE_DIR=/tmp/wt_{pid}/.nbcache` so that your worktree's code is what gets imported; verify once with `python -c "import groupby_lib; print(groupby_lib.__file__)"`). Python is /venv/bin/python. There is no network.
+The library is groupby-lib (a pandas groupby accelerator: numba-JIT group reductions, factorization, rolling/cumulative windows, EMAs, crosstabs over numpy/pandas/polars/arrow inputs). You have your own scratch git worktree of it at /tmp/wt_{tag} (detached HEAD). Work ONLY inside /tmp/wt_{tag} and /tmp/seed_out/{tag}/ (create the latter). Never read or modify /repo or /verif (the installed package is an editable install of /repo, so ALWAYS run python with `PYTHONPATH=/tmp/wt_{tag}` and `NUMBA_CACHE_DIR=/tmp/wt_{tag}/.nbcache` so that your worktree's code is what gets imported; verify once with `python -c "import groupby_lib; print(groupby_lib.__file__)"`). Python is /venv/bin/python. There is no network.
 
 Here is a semantic property the library is supposed to satisfy:
 
@@ -15,17 +16,17 @@ Here is a semantic property the library is supposed to satisfy:
 
   (it quantifies over: {(p.get('quantifier') or {}).get('text','')})
 
-Your task: make a realistic source change to the library (under /tmp/wt_{pid}/groupby_lib/) that BREAKS this property, while
+Your task: make a realistic source change to the library (under /tmp/wt_{tag}/groupby_lib/) that BREAKS this property, while
   * the package still imports/compiles, and
-  * the existing test suite still passes exactly as before (the baseline has ~256 known always-failing tests and one flaky timing test `test_multi_key_large_data`; your change must introduce NO new failures). The suite command is:
-      cd /tmp/wt_{pid} && PYTHONPATH=/tmp/wt_{pid} NUMBA_CACHE_DIR=/tmp/wt_{pid}/.nbcache /venv/bin/python -m pytest -q -p no:cacheprovider --timeout=900 --continue-on-collection-errors -rf tests
+  * the existing test suite still passes exactly as before (the baseline has ~192 known always-failing tests and one flaky timing test `test_multi_key_large_data`; your change must introduce NO new failures). The suite command is:
+      cd /tmp/wt_{tag} && PYTHONPATH=/tmp/wt_{tag} NUMBA_CACHE_DIR=/tmp/wt_{tag}/.nbcache /venv/bin/python -m pytest -q -p no:cacheprovider --timeout=900 --continue-on-collection-errors -rf tests
     It takes 12-17 minutes; run the relevant test files first while iterating, and the full suite once at the end with your final change (save the list of failed ids, and compare it with the list from a run on the unmodified tree: `git stash` / `git stash pop`, or a `git archive HEAD` copy under /tmp that you delete afterwards; if the file /tmp/seed_out/baseline_failed.txt exists when you need it, it already holds the sorted failing test ids of the unmodified tree at your commit and you can use it instead of running the baseline yourself).
   * The change should look like something a developer could plausibly write (an optimisation, refactor, off-by-one, wrong dtype, dropped guard, reordered statements, ...), not sabotage with a magic constant.
   * IMPORTANT: it must need something SPECIFIC to manifest — a particular multi-step sequence of operations, an unusual input (nulls in a particular position, a group absent from a block, particular sizes/dtypes/containers, unsorted positions, ...), two cooperating sites that each look fine alone, a particular thread count/chunking — NOT something ordinary use would expose at once. Prefer subtle over blatant.
 
-Deliver, in /tmp/seed_out/{pid}/:
-  * patch.diff — `git -C /tmp/wt_{pid} diff` of your final change (must apply with `git apply` to a clean checkout of the same commit);
-  * demo_{pid}.py — a small stand-alone program (run as `PYTHONPATH=<tree> /venv/bin/python demo_{pid}.py`) that exits non-zero (assertion) WITH the change and exits 0 WITHOUT it, demonstrating the property violation through the library's public behaviour;
+Deliver, in /tmp/seed_out/{tag}/:
+  * patch.diff — `git -C /tmp/wt_{tag} diff` of your final change (must apply with `git apply` to a clean checkout of the same commit);
+  * demo_{tag}.py — a small stand-alone program (run as `PYTHONPATH=<tree> /venv/bin/python demo_{tag}.py`) that exits non-zero (assertion) WITH the change and exits 0 WITHOUT it, demonstrating the property violation through the library's public behaviour;
   * meta.json — keys: property, files_changed, what_changed, needs_to_manifest (precisely what input/sequence is needed), tests_run (commands and pass/fail counts before/after, and the comparison of failing ids), demo_result_with_change, demo_result_without_change.
 
 When done, leave the worktree with the change applied, and reply with a short summary (what you changed, what it needs to manifest, test results). Do not commit anything anywhere.""")
